@@ -157,20 +157,54 @@ def whole_iteration_over(src, param, path_suffix=None):
     return True
 
 
+PRIMITIVES = ('VClock::get', 'CmRDT>::apply', 'CvRDT>::merge', 'reset_remove', 'VClock::is_empty', 'VClock::intersection',
+              'VClock::clone_without', 'VClock::glb', 'PartialOrd>::', 'PartialEq>::', 'validate_op', 'validate_merge',
+              'VClock::concurrent', 'Identifier::between', 'Node::hash', 'Ord>::cmp')
+
+
 def expand_all(facts, t, stop=(), depth=6):
-    """Recursively replace calls to side-effect-free crate-local functions by their return terms."""
-    from ..ordset import local_summary
+    """Recursively replace calls to side-effect-free crate-local functions by their return terms, and the post-state of
+    `&mut` arguments of crate-local helpers by the helper's final value of that argument."""
+    from ..ordset import local_summary, local_post_summary
     from ..terms import rebuild
 
+    def stopped(cid):
+        return any(s_ in cid for s_ in stop)
+
     def f(x):
-        if x[0] == 'call' and depth > 0:
+        if depth <= 0:
+            return x
+        if x[0] == 'call':
             info = cinfo(x[1])
-            if info['local'] and info['uid'] and not any(s in x[1] for s in stop):
-                s = local_summary(facts, x)
-                if s is not None and s != x:
-                    return expand_all(facts, s, stop, depth - 1)
+            if info['local'] and info['uid'] and not stopped(x[1]):
+                s_ = local_summary(facts, x)
+                if s_ is not None and s_ != x:
+                    return expand_all(facts, s_, stop, depth - 1)
+        if x[0] == 'post' and x[1][0] == 'call' and isinstance(x[2], int):
+            info = cinfo(x[1][1])
+            if info['local'] and info['uid'] and not stopped(x[1][1]):
+                s_ = local_post_summary(facts, x[1], x[2])
+                if s_ is not None and s_ != x:
+                    return expand_all(facts, s_, stop, depth - 1)
         return x
     return rebuild(t, f)
+
+
+def normal(facts, t):
+    """Fully expanded normal form: every crate-local helper is expanded except the primitives the rules are phrased in."""
+    from ..terms import drop_lv, rebuild
+    from ..interp import proj
+
+    def simp(x):
+        # obj(agg{..}, field := v)  ->  agg with the field replaced
+        if x[0] == 'obj' and x[1][0] == 'agg':
+            fields = dict(x[1][3])
+            for f_, v in x[2]:
+                if f_ in fields:
+                    fields[f_] = v
+            return ('agg', x[1][1], x[1][2], tuple((k, fields[k]) for k, _ in x[1][3]))
+        return x
+    return rebuild(drop_lv(expand_all(facts, t, stop=PRIMITIVES, depth=8)), simp)
 
 
 def ret_sites_by(it, pred):
@@ -193,7 +227,7 @@ def inline_option_maps(facts, t):
 
     def f(x):
         if x[0] == 'call' and (cinfo(x[1])['def'] or '').endswith(('option::Option::map', 'option::Option::and_then')) and len(x[2]) == 2 and x[2][1][0] == 'closure':
-            cb = facts.by_uid.get(x[2][1][1])
+            cb = facts.cb(x[2][1][1])
             if cb is not None:
                 m = {('param', 2): x[2][0]}
                 for k, v in enumerate(x[2][1][2]):
@@ -201,3 +235,122 @@ def inline_option_maps(facts, t):
                 return subst(interp(facts, cb).ret, m)
         return x
     return rebuild(t, f)
+
+
+def _strip_conv(t):
+    from ..terms import drop_lv
+    t = drop_lv(t)
+    while t[0] == 'call' and call_name(t) in ('into', 'from', 'clone') and len(t[2]) == 1:
+        t = drop_lv(t[2][0])
+    return t
+
+
+def dot_parts(facts, t):
+    """Fully expanded t is Dot{actor, counter} (through conversions) -> (actor term, counter term) else None."""
+    n = _strip_conv(normal(facts, _strip_conv(t)))
+    if n[0] == 'agg' and n[1] in (DOT, 'crdts::dot::OrdDot'):
+        f = dict(n[3])
+        if 'actor' in f and 'counter' in f:
+            return f['actor'], f['counter']
+    return None
+
+
+def next_dot_of(facts, t):
+    """t is `<clock>.get(actor) + 1` tagged with `actor`  ->  (clock term, actor term) (lv-free), else None."""
+    from ..terms import drop_lv
+    dp = dot_parts(facts, t)
+    if dp is None:
+        return None
+    actor, c = dp
+    c = drop_lv(c)
+    if c[0] == 'binop' and c[1] == 'Add':
+        ops = [drop_lv(c[2]), drop_lv(c[3])]
+        one = [o for o in ops if o[0] == 'const' and o[1] == 1]
+        get = [o for o in ops if is_call(o, 'get', self_adt='VClock') and len(o[2]) == 2]
+        if one and get and versionless(get[0][2][1]) == versionless(actor):
+            return drop_lv(get[0][2][0]), versionless(actor)
+    return None
+
+
+def stepped_dot_of(facts, t):
+    """t is Dot{actor, steps + clock.get(actor)} -> (clock, actor, steps) else None."""
+    from ..terms import drop_lv
+    dp = dot_parts(facts, t)
+    if dp is None:
+        return None
+    actor, c = dp
+    c = drop_lv(c)
+    if c[0] == 'binop' and c[1] == 'Add':
+        ops = [drop_lv(c[2]), drop_lv(c[3])]
+        get = [o for o in ops if is_call(o, 'get', self_adt='VClock') and len(o[2]) == 2 and versionless(o[2][1]) == versionless(actor)]
+        rest = [o for o in ops if o not in get]
+        if get and len(rest) == 1:
+            return drop_lv(get[0][2][0]), versionless(actor), versionless(rest[0])
+    return None
+
+
+def quant(facts, t, mapping=None, depth=0):
+    """t (after substituting `mapping`) is a boolean quantified over the items of an iterator.
+    Returns dict(kind='forall'|'exists', neg=bool, src=<iterator term>, cb=<predicate closure body>, m=<its bindings>)
+    with  value(t) = neg XOR (kind over the items of src of the predicate), or None."""
+    from ..terms import drop_lv
+    from ..ordset import local_summary
+    ts = subst(t, mapping) if mapping else t
+    ts = drop_lv(ts)
+    neg = False
+    while ts[0] == 'unop' and ts[1] == 'Not':
+        neg = not neg
+        ts = drop_lv(ts[2])
+    kind = call = None
+    if ts[0] == 'binop' and ts[1] in ('Eq', 'Ne', 'Gt', 'Lt'):
+        for x, y, swapped in ((ts[2], ts[3], False), (ts[3], ts[2], True)):
+            if y[0] == 'const' and y[1] == 0 and is_call(x, 'count') and x[2] and is_call(x[2][0], 'filter'):
+                op = ts[1]
+                if op == 'Eq':
+                    kind, call, neg = 'exists', x[2][0], not neg
+                elif op == 'Ne' or (op == 'Gt' and not swapped) or (op == 'Lt' and swapped):
+                    kind, call = 'exists', x[2][0]
+    if kind is None and is_call(ts, 'all') and len(ts[2]) == 2:
+        kind, call = 'forall', ts
+    if kind is None and is_call(ts, 'any') and len(ts[2]) == 2:
+        kind, call = 'exists', ts
+    if kind is None and is_call(ts, ('is_none', 'is_some')) and ts[2] and is_call(drop_lv(ts[2][0]), ('find', 'position', 'find_map')):
+        kind, call = 'exists', drop_lv(ts[2][0])
+        if call_name(ts) == 'is_none':
+            neg = not neg
+    if kind is None and ts[0] == 'call' and depth < 3:
+        info = cinfo(ts[1])
+        if info['local'] and info['uid']:
+            sm = local_summary(facts, ts)
+            if sm is not None and sm != ts:
+                q = quant(facts, sm, None, depth + 1)
+                if q:
+                    q['neg'] = q['neg'] != neg
+                    return q
+    if kind is None:
+        return None
+    bind = closure_bindings(call)
+    if not bind:
+        return None
+    clo, m = bind[0]
+    cb = facts.cb(clo[1])
+    if cb is None:
+        return None
+    return {'kind': kind, 'neg': neg, 'src': call[2][0], 'cb': cb, 'm': m}
+
+
+def pred_truth(facts, q, classify, domain, var):
+    """Truth of the predicate of a quantifier for every outcome of variable `var`; classify works on root-coordinate terms."""
+    cit = interp(facts, q['cb'])
+    m = q['m']
+    hit = []
+
+    def cl(a, b, t):
+        r_ = classify(subst(a, m), subst(b, m), t)
+        if r_ is not None:
+            hit.append(1)
+        return r_
+    out = {}
+    for o in domain:
+        out[o] = Evaluator(facts, classify=cl, assumption={var: o}).ev(cit.ret)
+    return out, bool(hit)
